@@ -8,7 +8,7 @@ terminating NUL nor reads beyond it.  NOT decided: everything that is about valu
 test compares exactly the leading n bits, the prefix lengths and network bits of CIDR / wildcard
 forms, agreement with inet_pton."""
 from ..facts import AnalysisBroken
-from ..model import sx, walk, is_var, const_of
+from ..model import sx, walk, is_var, const_of, on_path
 from .. import numeric, cursor
 from ..rules import event_exprs as _event_exprs
 
@@ -676,6 +676,59 @@ def full_range(P, R, fns, rule='C13.TAB.4', parts=('copy', 'prefix', 'residue', 
     return n
 
 
+def mask_walk_from_start(P, R, rule='C13.TAB.7'):
+    """"The mask test succeeds exactly when the leading prefix-length bits are equal": the comparison walks the groups
+    from the first one with the prefix length it was given - the walk's index enters the loop as 0 and nothing takes
+    bits off the length before the walk (a shortcut that starts further in trusts a classification of the operands
+    - "both IPv4" - that the skipped groups do not all take part in)."""
+    f = P.need_fn('irc_check_mask')
+    from ..model import rel as _rel
+    n = 0
+    cmp_blocks = [b for b in f.reachable_blocks() if f.term_cond(b) is not None and sum(1 for x in walk(f.term_cond(b)) if isinstance(x, dict) and x.get('k') == 'idx' and on_path(x, 'in6')) >= 2]
+    if not cmp_blocks:
+        raise AnalysisBroken('the mask test no longer compares group by group')
+    cyc = [b for b in cmp_blocks if b in f.reach([e.dst for e in f.out[b]])]
+    if not cyc:
+        raise AnalysisBroken('the group comparison of the mask test is not in a loop')
+    b0 = cyc[0]
+    idxv = None
+    for x in walk(f.term_cond(b0)):
+        if isinstance(x, dict) and x.get('k') == 'idx' and is_var(x.get('index')):
+            idxv = x['index']['name']
+    loop = {x for x in f.reach([e.dst for e in f.out[b0]]) if b0 in f.reach([e.dst for e in f.out[x]])} | {b0}
+    lenp = [p['name'] for p in f.param_info if 'int' in p.get('t', '') and '*' not in p.get('t', '')]
+    pre = [t for t in f.sites() if t.bid not in loop and b0 in f.reach([t.bid])]
+    starts = [t for t in pre if (t.ev['k'] == 'store' and is_var(t.ev.get('lhs'), idxv)) or (t.ev['k'] == 'decl' and t.ev.get('var') == idxv and t.ev.get('init') is not None)]
+    vals = [const_of(t.ev.get('rhs') if t.ev['k'] == 'store' else t.ev.get('init')) for t in starts]
+    R.ob(rule, bool(starts) and all(v == 0 for v in vals), starts[-1] if starts else f, 'the group walk of the mask test starts at the first group on every path (index %s enters the loop as %s)' % (idxv, sorted(set(map(str, vals)))), key='mask-walk:start')
+    early = [t for t in pre if t.ev['k'] == 'store' and lenp and any(is_var(t.ev.get('lhs'), p) for p in lenp)]
+    R.ob(rule, not early, early[0] if early else f, 'the prefix length is not reduced before the walk', key='mask-walk:length')
+    R.floor(rule, 2)
+
+
+def octet_value_blind(P, R, fns, rule='C13.GRD.2'):
+    """Zero is a number: no failure return of the address parsers is taken BECAUSE an accumulated octet, group or prefix
+    length is 0 ("1.2.3.0", "::0", "/0" are what they say).  Accumulators are the locals built up digit by digit
+    (`v = v * 10 + d`, `v = (v << 4) | d`); a rejection guarded by `v == 0` confuses "no digits" with "the digits 0"."""
+    n = 0
+    for f in fns:
+        acc = set()
+        for t in f.stores():
+            if t.ev['k'] == 'store' and is_var(t.ev.get('lhs')):
+                v = t.ev['lhs']['name']
+                rhs = t.ev.get('rhs')
+                if isinstance(rhs, dict) and any(isinstance(x, dict) and x.get('k') == 'bin' and ((x.get('op') == '*' and const_of(x.get('r')) == 10) or (x.get('op') == '<<' and const_of(x.get('r')) == 4)) and is_var(x.get('l'), v) for x in walk(rhs)):
+                    acc.add(v)
+        if not acc:
+            continue
+        for t in f.sites():
+            if t.ev['k'] == 'ret' and const_of(t.ev.get('val')) == 0:
+                n += 1
+                bad = [g for g in f.guards(t.bid) if is_var(g[0]) and g[0]['name'] in acc and g[1] == '==' and const_of(g[2]) == 0]
+                R.ob(rule, not bad, t, 'this rejection in %s does not hinge on an accumulated number being zero%s' % (f.name, '' if not bad else ' (it is taken when %s == 0)' % bad[0][0]['name']), key='zero-is-a-number:%s' % f.name)
+    R.floor(rule, 6, 'failure returns of the address parsers')
+
+
 def run(P, R, tier):
     fns = scope(P)
     if len(fns) < 3:
@@ -687,6 +740,8 @@ def run(P, R, tier):
     n = cursor_rules(P, R, fns)
     prefix_offsets(P, R)
     prefix_width(P, R)
+    mask_walk_from_start(P, R)
+    octet_value_blind(P, R, list(fns) if not isinstance(fns, dict) else list(fns.values()))
     hex_table(P, R)
     full_range(P, R, fns)
     # the class rule's address criterion is the mask test on the rule's own prefix length
